@@ -16,7 +16,7 @@ from ..devsim import SimDevice
 ID = "C20"
 LEVEL = "exploration"
 SHARDS = {"quick": 8, "thorough": 16}
-RULE = ("argv = control <host> [--capabilities] [--id N --token T --key K] + 1..3 setting=value pairs, run through msmart.cli.main() "
+RULE = ("argv = control <host> [--capabilities] [--auto | --id N --token T --key K] + 1..3 setting=value pairs, run through msmart.cli.main() "
         "in-process on the virtual-time network against a V2 (or V3) model device in a generated initial state. Valid pairs come "
         "from a table written from README lines 120-133: every writable setting; enumerations by member name in lower/upper/mixed "
         "case and by integer value (all members of all enums), raw integers 1..102 for fan_speed; numbers as int and float text "
@@ -99,6 +99,8 @@ def argv_of(case: dict) -> list:
     argv = ["msmart-ng", "control", "10.0.0.9"]
     if case.get("capabilities"):
         argv.append("--capabilities")
+    if case.get("auto"):
+        argv.append("--auto")
     if case.get("version") == 3:
         argv += ["--id", "77", "--token", TOKEN.hex(), "--key", KEY.hex()]
     return argv + list(case["settings"])
@@ -117,6 +119,11 @@ def run_cli(case: dict):
         m.cap_pages = [(recs, b"")]
         dev = SimDevice(loop, version=case.get("version", 2), device_id=77, ac=m, token=TOKEN, key=KEY)
         net.listen("10.0.0.9", 6444, dev)
+        if case.get("auto"):
+            # --auto: the device is found through discovery (V2: no cloud needed)
+            from .. import discsim
+            h = {"ip": "10.0.0.9", "id": 77, "port": 6444, "sn": "S" * 32, "tt": 0xAC, "suffix": "AB12", "version": 2, "listen_port": 6445, "extra": ""}
+            discsim.UdpWorld(net, [dict(ip=h["ip"], listen_port=6445, replies=[(0.05, 6445, discsim.good_reply(h))])])
         holder["m"], holder["dev"] = m, dev
         holder["before"] = m.state.copy()
 
@@ -228,7 +235,7 @@ def _run_one(ctx, case):
         pairs = case["pairs"]
         nt = len(pairs) >= 2 or any(p[0] == "display_on" for p in pairs) or any(p[0] == "fan_speed" and p[1] == "int" and p[2] not in ENUMS["fan_speed"].values() for p in pairs) \
             or any(s.split("=")[1] not in (s.split("=")[1].lower(), s.split("=")[1].upper()) for s in case["settings"])
-        cls = "valid/" + ("v3" if case.get("version") == 3 else "v2") + ("/caps" if case.get("capabilities") else "")
+        cls = "valid/" + ("v3" if case.get("version") == 3 else "v2") + ("/caps" if case.get("capabilities") else "") + ("/auto" if case.get("auto") else "")
     ctx.case(hash(json.dumps(case, sort_keys=True)), nt, cls=cls)
     ctx.sample(cls, {k: v for k, v in case.items() if k != "initial"})
     return check_case(case)
@@ -251,7 +258,7 @@ def pair_strategy():
     return st.one_of(enum_by_name, enum_by_int, fan_raw, temp, hum, boolean, boolean)
 
 
-def _mk_valid(pairs_settings, initial, caps, version):
+def _mk_valid(pairs_settings, initial, caps, version, auto=False):
     # one pair per setting name (later duplicates dropped): the documented meaning of repeated settings is not specified
     seen, pairs, settings = set(), [], []
     for p, s in pairs_settings:
@@ -261,7 +268,8 @@ def _mk_valid(pairs_settings, initial, caps, version):
         seen.add(group)
         pairs.append(list(p))
         settings.append(s)
-    return {"kind": "valid", "pairs": pairs, "settings": settings, "initial": initial, "capabilities": caps, "version": version}
+    return {"kind": "valid", "pairs": pairs, "settings": settings, "initial": initial, "capabilities": caps, "version": version,
+            "auto": bool(auto) and version == 2}
 
 
 def run(ctx) -> None:
@@ -304,9 +312,10 @@ def run(ctx) -> None:
                 ctx.check(case, lambda c: _run_one(ctx, c))
     ctx.sweep("every (setting, member, case style), member integer, boolean spelling, raw fan integer, setpoint; invalid catalogue", n, True)
 
-    valid = st.builds(_mk_valid, st.lists(pair_strategy(), min_size=1, max_size=3), gens.device_states(), st.booleans(), st.sampled_from([2, 2, 3]))
+    valid = st.builds(_mk_valid, st.lists(pair_strategy(), min_size=1, max_size=3), gens.device_states(), st.booleans(), st.sampled_from([2, 2, 3]),
+                      st.sampled_from([False, False, True]))
     ctx.hyp("valid argv", valid, lambda c: _run_one(ctx, c), ctx.n(3200, 128000))
     invalid = st.tuples(st.lists(pair_strategy().map(lambda t: t[1]), max_size=2), st.sampled_from(INVALID), st.integers(0, 2)).map(
         lambda t: {"kind": "invalid", "settings": (t[0][:t[2]] + [t[1]] + t[0][t[2]:]), "initial": DEFAULT_INITIAL, "capabilities": t[2] == 1,
-                   "version": 2 + (len(t[1]) % 2)})
+                   "version": 2 + (len(t[1]) % 2), "auto": len(t[1]) % 2 == 0 and len(t[0]) % 2 == 1})
     ctx.hyp("invalid argv", invalid, lambda c: _run_one(ctx, c), ctx.n(1200, 48000))
